@@ -12,7 +12,7 @@ SHRINK = False
 LEAF_FNS = ["addbrackets"]
 RULE = ("objects built by random setter histories with arguments of DESIGN.md 5.4 (interleaved group-less and sectioned keys, re-opened "
         "sections, overwritten keys, typed setters) and objects parsed from conventional documents, x delimiter char {=,:,space} x "
-        "comment char {#,;}; each is written, read back with the same characters and compared; distinct by written bytes and characters")
+        "comment char {#,;}; each is written - to a fresh path or over an existing, longer file -, read back with the same characters and compared; distinct by written bytes and characters")
 BL = b" \t\x0b\x0c\r"
 
 
@@ -68,7 +68,7 @@ def built(rng, sid):
             s.add("SET", 0, "uint64", h(sec), h(k), str(rng.randint(0, 2**64 - 1)))
         else:
             s.add("SET", 0, "bool", h(sec), h(k), h(rng.choice([b"yes", b"NO", b"True", b"0", b"1", b"false", b""])))
-    return finish(s, d, c)
+    return finish(s, d, c, rng)
 
 
 def parsed(rng, sid):
@@ -107,11 +107,19 @@ def parsed(rng, sid):
             # single-line values: the key may be one of the file's, whose entry can carry a trailing comment (5.4: a comment
             # after the value on single-line entries only)
             s.add("SET", 0, "str", h(sec), h(g.key()), h(value54(rng, g, d, single=True)))
-    return finish(s, d, c)
+    return finish(s, d, c, rng)
 
 
-def finish(s, d, c):
+OLD_FILES = [b"[logging]\nlevel=debug\ntarget=syslog\n[network]\nhostname=example.org\ngateway=192.0.2.1\n[paths]\ncache=/var/cache/app\nstate=/var/lib/app\n" * 8,
+             b"stale\n", b"x" * 5000 + b"\n", b"k=old value \\\n  continued\n[old]\nz=1\n" * 40]
+
+
+def finish(s, d, c, rng):
     s.mkdir(b"/out")
+    # saving over an existing file (an earlier, longer save at the same place): only the new text may be left
+    if rng.random() < 0.4:
+        s.file(b"/out/w.conf", rng.choice(OLD_FILES))
+        s.meta["over_existing"] = True
     s.add("RAW", 0)
     s.add("W", 0, h(b"/out"), h(b"w.conf"))
     s.add("RF", 1, h(b"/out/w.conf"), h(d), h(c))
@@ -172,6 +180,8 @@ def histogram(s, lines):
     if "kind" not in m:
         return ["corpus"]
     ks = ["object_" + m["kind"], "delim_%r" % m["d"].decode(), "comment_" + m["c"].decode()]
+    if m.get("over_existing"):
+        ks.append("written_over_existing_file")
     raws = parse_raws(lines)
     if raws and not raws[0].null:
         es = raws[0].entries
